@@ -23,6 +23,9 @@ type TypeMethod struct {
 	Inputs            []MethodType
 	Outputs           []MethodType
 	ReceiverIsPointer bool // true if receiver is *T, false if T
+
+	// id is the go/types identity of the method (see InterfaceMethod.id); empty for hand-built models.
+	id string
 }
 
 // MethodType represents a type in method signature
@@ -152,6 +155,7 @@ func extractMethodsFromNamedType(named *types.Named) []TypeMethod {
 			Inputs:            extractMethodTypesFromTuple(sig.Params(), sig.Variadic()),
 			Outputs:           extractMethodTypesFromTuple(sig.Results(), false),
 			ReceiverIsPointer: recvIsPointer,
+			id:                method.Id(),
 		})
 	}
 
